@@ -1,5 +1,6 @@
 import Vflow.Proofs.SflowSpec2
 import Vflow.Gen.OptionsTbl
+import Vflow.Gen.SflowFilter
 /-!
 # C18 — the sFlow type filter removes exactly the listed sample types
 
@@ -172,6 +173,41 @@ theorem filter_append (f g : List Nat) (bs : Bytes) (hfr : FramedDatagram (f ++ 
 
 /-- non-vacuity of `filter_depends`: a list with unknown types, repetitions and another order, on the witness -/
 example : decode [7, 1, 4096, 1] witness = decode [1] witness := filter_depends _ _ (by decide) (by decide) _
+
+/-- **Tie (what "listed" means)**: `isFilterMatch`, regenerated: `true` exactly when some element of the decoder's list
+equals the sample's format — the model's `fmt ∈ f`; nothing else of the list is looked at (hence `filter_depends`) -/
+theorem gen_filter_match :
+    Gen.SflowFilter.filterMatch =
+      ["func(f uint32) bool",
+       "for _, v := range d.filter { if v == f { return true } }",
+       "return false"] := by decide +kernel
+
+/-- **Tie (where the filter is consulted)**: the sample loop of `SFDecode`, regenerated — per sample: read type and
+length; a non-standard enterprise is skipped first (`sampleStep`: `ent ≠ 0`); then the filter: a match seeks forward by
+the DECLARED length and goes to the next sample (`sampleStep`: `fmt ∈ f → r.drop len`); only then the dispatch on the
+type, whose default also skips by the declared length.  The order of the three tests and the skip distance are the
+model's; a filter test after the dispatch, or a skip by anything but `sfDataLength`, changes this list. -/
+theorem gen_filter_loop :
+    Gen.SflowFilter.sampleLoop =
+      ["for i := uint32(0); i < datagram.SamplesNo; i++",
+       "sfTypeFormat, sfDataLength, err := d.getSampleInfo()",
+       "if err == errNoneEnterpriseStandard { continue }",
+       "if err != nil { return nil, err }",
+       "if m := d.isFilterMatch(sfTypeFormat); m { d.reader.Seek(int64(sfDataLength), 1) continue }",
+       "switch sfTypeFormat",
+       "default: d.reader.Seek(int64(sfDataLength), 1)"] := by decide +kernel
+
+/-- **Tie (the configured list reaches every decoder unchanged)**: the `filter` field is written in one place — the
+composite literal of `NewSFDecoder`, from its parameter — and read in one place, `isFilterMatch`; package `vflow`
+constructs decoders in one place, `sFlowWorker`, with `opts.SFlowTypeFilter` (the anchor "filter passed to every
+decoder instance") -/
+theorem gen_filter_handover :
+    Gen.SflowFilter.newDecoder =
+      ["func(r io.ReadSeeker, f []uint32) SFDecoder", "return SFDecoder{ reader: r, filter: f, }"] ∧
+    Gen.SflowFilter.filterUses =
+      ["sflow/decoder.go NewSFDecoder: filter: f", "sflow/decoder.go isFilterMatch: d.filter"] ∧
+    Gen.SflowFilter.decoderCalls =
+      ["vflow/sflow.go sFlowWorker: sflow.NewSFDecoder(reader, opts.SFlowTypeFilter)"] := by decide +kernel
 
 /-- **Tie (how the filter list is configured)**: the property quantifies over filter LISTS; how the option builds its
 list is package `vflow`'s `arrUInt32Flags.Set`, regenerated here: every occurrence of `-sflow-type-filter` (and the
